@@ -8,7 +8,7 @@ EXTENDS GrpcWire, Json, SequencesExt, IOUtils
 CONSTANTS MaxInst, MaxFile, Kinds, Full, Cfgs
 
 (******************************* catalogue *********************************)
-F(f, d, t) == [f |-> f, pre |-> IF f \in {"user_id", "item_id"} THEN "" ELSE d \o "." \o f, tok |-> t]
+F(f, d, t) == [f |-> f, pre |-> IF f \in {"user_id", "item_id"} THEN "" ELSE d \o "." \o f, tok |-> t, dv |-> FALSE]
 M(k, d, t) == [k |-> k, pre |-> d \o "." \o k, tok |-> t]
 Step(d, call, bad, tag, fs, ks, t) ==
     [def |-> d, call |-> Svc \o call, bad |-> bad, tag |-> tag, sleep |-> 0,
@@ -24,6 +24,9 @@ S2 == [name |-> "s2", steps |-> <<Step("c2", "Nope2", "unknown", "s2.c2", {}, {"
 S3 == [name |-> "s3", steps |-> <<Step("c3", "Auth", "illtyped", "s3.c3", {"login"}, {}, ""), TailStep("s3")>>]
 
 \* an undecodable line (continue-on-error): no call, no tag of its own
+\* a field written with its default value: List{token, user_id = 0}
+J6 == [name |-> "e6", steps |-> <<[Step("e6", "List", "none", "e6", {"token", "user_id"}, {}, "5006")
+                                   EXCEPT !.fields = {IF x.f = "user_id" THEN [x EXCEPT !.dv = TRUE] ELSE x : x \in @}]>>]
 J5 == [name |-> "!invalid", steps |-> <<[Step("e5", "?", "undecodable", "*", {}, {}, "5005") EXCEPT !.call = "?"]>>]
 \* think time between the steps: 2 + 2 ticks against a per-call timeout of 3
 Slp(st, n) == [st EXCEPT !.sleep = n]
@@ -31,7 +34,7 @@ S4 == [name |-> "s4", steps |-> <<Slp(Step("c4", "Hello", "none", "s4.c4", {"nam
                                   [TailStep("s4") EXCEPT !.tag = "s4.ct2"]>>]
 \* a template that fails DURING execution (after writing part of its output): nothing is sent, one failed sample
 S5 == [name |-> "s5", steps |-> <<Step("c5", "Hello", "tmplfail", "s5.c5", {"name"}, {"b"}, ""), TailStep("s5")>>]
-Cat(k) == IF k = "json" THEN {J1, J2, J3, J4, J5} ELSE {S1, S2, S3, S4, S5}
+Cat(k) == IF k = "json" THEN {J1, J2, J3, J4, J5, J6} ELSE {S1, S2, S3, S4, S5}
 Files(k) == UNION {[1..n -> Cat(k)] : n \in 1..MaxFile}
 
 Init == \E k \in Kinds : \E f \in Files(k) : \E n \in 1..MaxInst : \E c \in Cfgs : InitCfg(k, f, n, c)
@@ -47,14 +50,21 @@ Both     == {"json", "scn"}
 (******************************* generator *********************************)
 FieldSubsets(m) == {SelectSeq(InputType(m), LAMBDA x : x \in S) : S \in SUBSET Rng(InputType(m))}
 MdSeq(S) == SelectSeq(<<"a", "b", "auth", "payload">>, LAMBDA k : k \in S)
-Abs(m, fs, mds, bad, st, nu) == [call |-> m, fields |-> fs, md |-> MdSeq(mds), bad |-> bad, style |-> st, num |-> nu]
+Abs(m, fs, mds, bad, st, nu) == [call |-> m, fields |-> fs, md |-> MdSeq(mds), bad |-> bad, style |-> st, num |-> nu, dflt |-> {}]
 Styles == IF Full THEN {"proto", "camel"} ELSE {"rot"}
 Nums   == IF Full THEN {"number", "string"} ELSE {"rot"}
 GoodAbs == {Abs(m, fs, mds, "none", st, nu) : m \in Methods, fs \in UNION {FieldSubsets(mm) : mm \in Methods},
                                              mds \in SUBSET MdKeys, st \in Styles, nu \in Nums}
 \* a metadata entry may have any name -- also the ones the implementation uses internally ("payload")
 NameClash == {Abs(m, InputType(m), mds, "none", "rot", "rot") : m \in Methods, mds \in {{"payload"}, {"a", "payload"}}}
-GoodSet == {a \in GoodAbs : a.fields \in FieldSubsets(a.call)} \cup NameClash
+\* fields written with their DEFAULT value ("" / 0): every non-empty subset D of the fields of Auth, List, Order
+Defaults == {[Abs(m, InputType(m), mds, "none", "rot", "rot") EXCEPT !.dflt = D] :
+                m \in {"Auth", "List", "Order"}, mds \in {{}, {"a"}},
+                D \in UNION {SUBSET {InputType(mm)[i].f : i \in DOMAIN InputType(mm)} : mm \in {"Auth", "List", "Order"}}}
+DefaultSet == {a \in Defaults : a.dflt # {} /\ a.dflt \subseteq {InputType(a.call)[i].f : i \in DOMAIN InputType(a.call)}}
+\* a payload naming a field the method does not have (the other ill-typed entries rotate through three mechanisms)
+UnknownField == {Abs(m, InputType(m), {}, "illtyped", "unknownfield", "rot") : m \in Methods}
+GoodSet == {a \in GoodAbs : a.fields \in FieldSubsets(a.call)} \cup NameClash \cup DefaultSet
 BadSet  == {Abs("Hello", <<>>, mds, "unknown", "rot", "rot") : mds \in {{}, {"a"}, {"a", "b", "auth"}}}
            \cup {a \in {Abs(m, fs, mds, "illtyped", "rot", "rot") : m \in Methods,
                         fs \in UNION {FieldSubsets(mm) : mm \in Methods}, mds \in {{}, {"b"}}} :
@@ -65,7 +75,7 @@ BadSet  == {Abs("Hello", <<>>, mds, "unknown", "rot", "rot") : mds \in {{}, {"a"
 TmplFail == {Abs("Hello", <<FStr("name")>>, {"a"}, "tmplfail", v, "rot") : v \in {"payload", "metadata"}}
 Undecodable == {Abs("Hello", <<>>, {}, "undecodable", g, "rot") : g \in {"truncated", "notjson", "array", "payloadstring"}}
 GoodSeq == SetToSeq(GoodSet)
-BadSeq  == SetToSeq(BadSet \cup Undecodable \cup TmplFail)
+BadSeq  == SetToSeq(BadSet \cup Undecodable \cup TmplFail \cup UnknownField)
 \* bad entries interleaved with good ones: one bad entry after every K good ones, the rest of the good at the end
 K == Len(GoodSeq) \div Len(BadSeq)
 RECURSIVE Weave(_)
@@ -73,10 +83,11 @@ Weave(j) == IF j > Len(BadSeq) THEN SubSeq(GoodSeq, (j - 1) * K + 1, Len(GoodSeq
             ELSE SubSeq(GoodSeq, (j - 1) * K + 1, j * K) \o <<BadSeq[j]>> \o Weave(j + 1)
 Woven == Weave(1)
 N == Len(Woven)
-Rot(a, i) == IF a.bad \in {"undecodable", "tmplfail"} THEN a ELSE
+Rot(a, i) == IF a.bad \in {"undecodable", "tmplfail"} \/ a.style = "unknownfield" THEN a ELSE
              [a EXCEPT !.style = IF @ = "rot" THEN (IF i % 2 = 0 THEN "camel" ELSE "proto") ELSE @,
                        !.num   = IF @ = "rot" THEN (IF (i \div 2) % 2 = 0 THEN "number" ELSE "string") ELSE @]
-Entry(i) == [id |-> i] @@ Rot(Woven[i], i)
+WithDv(a) == [a EXCEPT !.fields = [j \in DOMAIN @ |-> @[j] @@ [dv |-> @[j].f \in a.dflt]]]
+Entry(i) == [id |-> i] @@ Rot(WithDv(Woven[i]), i)
 \* the expected observable of every entry, computed here: is the call received, how many ok / failed samples
 Expect(a) == [received |-> a.bad = "none", ok_samples |-> IF a.bad = "none" THEN 1 ELSE 0,
               failed_samples |-> IF a.bad = "none" THEN 0 ELSE 1]
